@@ -166,11 +166,13 @@ def c17(run, a):
     run.trusted += [
         "the adversary model Model/Adv.lean (M6): hand transliteration of the default Buf consumers (try_copy_to_slice, copy_to_slice, the "
         "buf_try_get_impl!/buf_get_impl! arms, get_u8), the default BufMut::put into a fixed destination, BytesMut::put / Vec::put "
-        "(extend_from_slice per chunk), IntoIter::next, Reader::read, Take::chunks_vectored, with unsafe operations as bounds-checked primitives — "
+        "(extend_from_slice per chunk), IntoIter::next, Reader::read, Take::chunks_vectored, and (round 8) Take / Chain / Limit around the adversary: "
+        "default copy_to_bytes (BytesMut::put of self.take(len)), Take::copy_to_bytes, Chain::copy_to_bytes, Chain::chunks_vectored, Chain getters via "
+        "copy_to_slice, default put into Limit<&mut BytesMut> (chunk_mut's reserve(64), both advance_mut re-checks), with unsafe operations as bounds-checked primitives — "
         "tied by T2: for every generated lie script the implementation's outcome (value / length / panic) is compared with the model's prediction",
         "T1 inventory of `unsafe` sites in src/buf/*.rs and in the trait-consuming functions of bytes.rs / bytes_mut.rs (tools/extract.py "
         "extract_unsafe, FNV-1a text fingerprints) compared with the reviewed list Model/Sites.lean; the review (class per site) is trusted",
-        "consumers not in M6 (copy_to_bytes and its Take/Chain overrides, Chain getters, Limit, from_owner, Extend/FromIterator, serde visitors) are "
+        "consumers not in M6 (the stale / flicker / cursor adversary families, from_owner, Extend/FromIterator, serde visitors) are "
         "covered by T2's allocator oracle only (ledger allocator: red zones, poison + quarantine, layout-exact frees, balance after unwinding); "
         "out-of-bounds *reads* that stay inside some live allocation are visible only through wrong values / the model comparison",
         "harness hseq adv stream (LyingBuf / LyingOwner / LyingIter) + judge parser",
